@@ -28,7 +28,7 @@ fn lt_val(v: u8) -> LabelType {
 
 pub fn run(tier: Tier) -> i32 {
     let rep = Report::new("C14", tier);
-    rep.set_rule("complete enumeration of the 65536 header words (decode, padding rule, re-encode) and of the 4x4x4096 (kind,label type,length) triples (encode vs reference word, decode back); a cell is non-trivial when it is not the padding pattern; distinct = distinct (kind,lt) classes x verdict");
+    rep.set_rule("complete enumeration of the 65536 header words (decode, padding rule, re-encode) and of the 4x4x4096 (kind,label type,length) triples (encode vs reference word, decode back); a cell is non-trivial when it is not the padding pattern; history independence: every word read twice in a row after each of 48 context words (packets of every kind and padding words), triples encoded twice after each context; distinct = distinct (kind,lt) classes x verdict");
     let mut acc = Acc::default();
     // part 1: all words
     for w in 0..=0xFFFFu32 {
@@ -136,6 +136,62 @@ pub fn run(tier: Tier) -> i32 {
     }
     rep.merge(acc);
     rep.part(json!({"words": 65536, "triples": 4 * 4 * 4096}));
+    // part 3: the answer for a word must not depend on what was decoded or encoded before ("reading ANY value ..."):
+    // every word is read twice in a row after each of 48 context words (all 16 S/E/LT combinations x lengths
+    // 0, 1, 4095, i.e. packets of every kind and padding words), and every triple is encoded twice after each context.
+    // One sequence runs on one thread without interruption, so a per-thread or global cache is exercised.
+    use rayon::prelude::*;
+    let contexts: Vec<u16> = (0..16u16).flat_map(|top| [0u16, 1, 0x0FFF].into_iter().map(move |l| (top << 12) | l)).collect();
+    let kinds_ref = &kinds;
+    contexts.par_iter().for_each(|&cw| {
+        let mut acc = Acc::default();
+        let cfields = catch(|| read_gse_header(cw)).ok().flatten();
+        for w in 0..=0xFFFFu32 {
+            let w = w as u16;
+            let expect = header_fields(w);
+            let _ = catch(|| read_gse_header(cw));
+            for round in 0..2 {
+                acc.states += 1;
+                acc.transitions += 1;
+                acc.calls += 1;
+                acc.compared += 1;
+                let got = catch(|| read_gse_header(w));
+                let same = match (&got, &expect) {
+                    (Ok(None), None) => true,
+                    (Ok(Some((len, kind, lt))), Some((ek, elt, elen))) => format!("{:?}", kind) == ek.name() && lt_of(lt) == *elt && len == elen,
+                    _ => false,
+                };
+                if !same {
+                    let pad = if expect.is_none() { "padding-word" } else { "packet-word" };
+                    rep.violation(&format!("C14|history|read|{}|{}", pad, if round == 0 { "first-read" } else { "repeated-read" }), w as u64, || {
+                        (format!("after reading {:#06x}, read #{} of {:#06x} gives {:?}; the word alone decodes to {:?}", cw, round + 1, w, got.as_ref().map(|g| g.as_ref().map(|x| format!("({}, {:?}, {:?})", x.0, x.1, x.2))).map_err(|p| p.0.clone()), expect.map(|e| (e.0.name(), e.1, e.2))), json!({"call": "read_gse_header sequence", "sequence": [format!("{:#06x}", cw), format!("{:#06x}", w), format!("{:#06x}", w)]}))
+                    });
+                }
+            }
+        }
+        // encoder: generate(context), then every triple twice
+        if let Some((clen, ckind, clt)) = &cfields {
+            for (k, pk) in kinds_ref {
+                for ltv in 0..4u8 {
+                    for len in [0usize, 1, 2, 255, 256, 4094, 4095] {
+                        let _ = catch(|| generate_gse_header(ckind, clt, *clen as u16));
+                        for round in 0..2 {
+                            acc.transitions += 1;
+                            acc.calls += 1;
+                            acc.compared += 1;
+                            let ew = header_word(*k, ltv, len);
+                            match catch(|| generate_gse_header(pk, &lt_val(ltv), len as u16)) {
+                                Ok(w) if w == ew => {}
+                                other => rep.violation(&format!("C14|history|generate|{}", if round == 0 { "first" } else { "repeated" }), len as u64, || (format!("after encoding the fields of {:#06x}, encoding ({},{},{}) gives {:?} instead of {:#06x}", cw, k.name(), ltv, len, other.as_ref().map_err(|p| p.0.clone()), ew), json!({"call": "generate_gse_header sequence", "context_word": format!("{:#06x}", cw), "kind": k.name(), "lt": ltv, "gse_len": len}))),
+                            }
+                        }
+                    }
+                }
+            }
+        }
+        rep.merge(acc);
+    });
+    rep.part(json!({"part": "history independence", "context_words": contexts.len(), "words_read_twice_after_each": 65536}));
     rep.assume("kind values of the crate's private PktType enum are obtained by decoding and identified by their Debug names");
     rep.finish(true)
 }
